@@ -44,15 +44,40 @@ type ServiceDef struct {
 
 // H is the harness state.
 type H struct {
-	defs   map[string]*ServiceDef
-	mu     sync.Mutex
-	cur    *caseState // the case being executed (single-threaded protocol)
-	server *httptest.Server
-	mux    goahttp.Muxer
-	svcs   map[string]*mounted
+	defs    map[string]*ServiceDef
+	mu      sync.Mutex
+	cur     *caseState // the case being executed (single-threaded protocol)
+	server  *httptest.Server
+	handler http.Handler
+	mux     goahttp.Muxer
+	svcs    map[string]*mounted
 	// handled lists the (verb, pattern) pairs passed to Muxer.Handle while mounting
 	handled [][]string
-	// concurrent mode: per-request stub behaviour keyed by a token the payload carries
+	// concurrent mode: the state of every case in flight, keyed by the token
+	// that travels in the context (client side) and in the X-Verif-Case
+	// request header (server side)
+	cases    map[string]*caseState
+	burstSeq int
+}
+
+type ctxKeyT struct{}
+
+var ctxKey = ctxKeyT{}
+
+// caseHeader carries the case token from the tap to the server-side wrapper.
+const caseHeader = "X-Verif-Case"
+
+// state returns the case a context belongs to (concurrent mode) or the
+// single case in flight (sequential protocol).
+func (h *H) state(ctx context.Context) *caseState {
+	if ctx != nil {
+		if cs, ok := ctx.Value(ctxKey).(*caseState); ok && cs != nil {
+			return cs
+		}
+	}
+	h.mu.Lock()
+	defer h.mu.Unlock()
+	return h.cur
 }
 
 type mounted struct {
@@ -84,6 +109,14 @@ type Case struct {
 	Raw        *RawReq   `json:"raw,omitempty"`    // op "raw": send this request with a plain http.Client
 	Auth       *AuthSpec `json:"auth,omitempty"`
 	Accept     string    `json:"accept,omitempty"`
+	// op "burst": run these "call" cases with Workers goroutines (1 = sequentially)
+	Burst   []Case `json:"burst,omitempty"`
+	Workers int    `json:"workers,omitempty"`
+	// InMemory: the tap hands the request to the mounted handler directly
+	// (httptest recorder) instead of sending it over the loopback listener.
+	// Socket I/O makes the race detector order every write before every later
+	// read in the process, which hides races between in-process requests.
+	InMemory bool `json:"in_memory,omitempty"`
 }
 
 // StubSpec tells the stub service what to do.
@@ -196,11 +229,16 @@ type Obs struct {
 	Mounts       [][]string `json:"mounts,omitempty"`
 	Handled      [][]string `json:"handled,omitempty"`
 	ServerPanic  string     `json:"server_panic,omitempty"`
+	Sub          []*Obs     `json:"sub,omitempty"` // op "burst": one observation per case
 }
 
 type caseState struct {
-	c   *Case
-	obs *Obs
+	c     *Case
+	obs   *Obs
+	token string
+	inmem bool
+	// mu orders the accesses of the client-side and server-side goroutines of one case
+	mu sync.Mutex
 }
 
 // Main runs the protocol loop.
@@ -272,7 +310,8 @@ func (h *H) start() error {
 		}
 		h.svcs[name] = m
 	}
-	h.server = httptest.NewServer(h.countingHandler(h.mux))
+	h.handler = h.countingHandler(h.mux)
+	h.server = httptest.NewServer(h.handler)
 	u, _ := url.Parse(h.server.URL)
 	for name, m := range h.svcs {
 		if m.def.NewClient == nil {
@@ -304,20 +343,33 @@ func (w countingWriter) Unwrap() http.ResponseWriter { return w.ResponseWriter }
 func (h *H) countingHandler(next http.Handler) http.Handler {
 	return http.HandlerFunc(func(w http.ResponseWriter, r *http.Request) {
 		n := 0
+		var cs *caseState
+		if tok := r.Header.Get(caseHeader); tok != "" {
+			h.mu.Lock()
+			cs = h.cases[tok]
+			h.mu.Unlock()
+			r.Header.Del(caseHeader)
+			if cs != nil {
+				r = r.WithContext(context.WithValue(r.Context(), ctxKey, cs))
+			}
+		}
+		if cs == nil {
+			cs = h.state(nil)
+		}
 		defer func() {
 			if rec := recover(); rec != nil {
-				h.mu.Lock()
-				if h.cur != nil {
-					h.cur.obs.ServerPanic = fmt.Sprint(rec) + "\n" + string(debug.Stack())
+				if cs != nil {
+					cs.mu.Lock()
+					cs.obs.ServerPanic = fmt.Sprint(rec) + "\n" + string(debug.Stack())
+					cs.mu.Unlock()
 				}
-				h.mu.Unlock()
 				panic(http.ErrAbortHandler)
 			}
-			h.mu.Lock()
-			if h.cur != nil {
-				h.cur.obs.WriteHeaders += n
+			if cs != nil {
+				cs.mu.Lock()
+				cs.obs.WriteHeaders += n
+				cs.mu.Unlock()
 			}
-			h.mu.Unlock()
 		}()
 		next.ServeHTTP(countingWriter{w, &n}, r)
 	})
@@ -392,11 +444,11 @@ func (h *H) buildArgs(ft reflect.Type, m *mounted, base *url.URL) ([]reflect.Val
 }
 
 func (h *H) errHandler(ctx context.Context, w http.ResponseWriter, err error) {
-	h.mu.Lock()
-	if h.cur != nil {
-		h.cur.obs.ErrHandler = append(h.cur.obs.ErrHandler, err.Error())
+	if cs := h.state(ctx); cs != nil {
+		cs.mu.Lock()
+		cs.obs.ErrHandler = append(cs.obs.ErrHandler, err.Error())
+		cs.mu.Unlock()
 	}
-	h.mu.Unlock()
 }
 
 // tap is the Doer handed to the generated client.
@@ -404,9 +456,11 @@ type tap struct{ h *H }
 
 func (t *tap) Do(req *http.Request) (*http.Response, error) {
 	h := t.h
-	h.mu.Lock()
-	cs := h.cur
-	h.mu.Unlock()
+	cs := h.state(req.Context())
+	if cs != nil {
+		cs.mu.Lock()
+		defer cs.mu.Unlock()
+	}
 	var body []byte
 	if req.Body != nil {
 		body, _ = io.ReadAll(req.Body)
@@ -441,7 +495,23 @@ func (t *tap) Do(req *http.Request) (*http.Response, error) {
 			return resp, nil
 		}
 	}
-	resp, err := noRedirectClient.Do(req)
+	if cs != nil && cs.token != "" {
+		req.Header.Set(caseHeader, cs.token)
+	}
+	if cs != nil {
+		// the server-side goroutines of this case take the lock while the request is in flight
+		cs.mu.Unlock()
+	}
+	var resp *http.Response
+	var err error
+	if cs != nil && (cs.inmem || cs.c.InMemory) {
+		resp = h.serveInMemory(req, body)
+	} else {
+		resp, err = noRedirectClient.Do(req)
+	}
+	if cs != nil {
+		cs.mu.Lock()
+	}
 	if err != nil {
 		return nil, err
 	}
@@ -452,6 +522,29 @@ func (t *tap) Do(req *http.Request) (*http.Response, error) {
 		cs.obs.Response = &RawResp{Status: resp.StatusCode, Header: map[string][]string(resp.Header.Clone()), Body: rb}
 	}
 	return resp, nil
+}
+
+// serveInMemory runs the mounted handler on the calling goroutine.
+func (h *H) serveInMemory(req *http.Request, body []byte) *http.Response {
+	sr := httptest.NewRequest(req.Method, req.URL.String(), bytes.NewReader(body))
+	sr.Header = req.Header.Clone()
+	if len(body) == 0 {
+		sr.Body = http.NoBody
+	}
+	sr.ContentLength = int64(len(body))
+	sr.Host = req.URL.Host
+	rec := httptest.NewRecorder()
+	func() {
+		defer func() {
+			if r := recover(); r != nil && r != http.ErrAbortHandler {
+				panic(r)
+			}
+		}()
+		h.handler.ServeHTTP(rec, sr)
+	}()
+	resp := rec.Result()
+	resp.Request = req
+	return resp
 }
 
 var noRedirectClient = &http.Client{CheckRedirect: func(req *http.Request, via []*http.Request) error { return http.ErrUseLastResponse }}
@@ -540,6 +633,9 @@ func (h *H) run(c *Case) (obs *Obs) {
 		h.mu.Unlock()
 	}()
 	switch c.Op {
+	case "burst":
+		obs.Sub = h.burst(c)
+		return obs
 	case "mounts":
 		for _, m := range h.svcs {
 			if !m.server.IsValid() {
@@ -582,44 +678,119 @@ func (h *H) run(c *Case) (obs *Obs) {
 		obs.Err = "unknown op " + c.Op
 		return obs
 	}
+	h.call(cs)
+	return obs
+}
+
+// call runs one "call" case through the generated client; the case travels in the context.
+func (h *H) call(cs *caseState) {
+	c := cs.c
+	fail := func(msg string) {
+		cs.mu.Lock()
+		cs.obs.Err = msg
+		cs.mu.Unlock()
+	}
 	m := h.svcs[c.Svc]
 	if m == nil {
-		obs.Err = "unknown service " + c.Svc
-		return obs
+		fail("unknown service " + c.Svc)
+		return
 	}
 	if !m.client.IsValid() {
-		obs.Err = "service has no HTTP client"
-		return obs
+		fail("service has no HTTP client")
+		return
 	}
 	// client endpoint: method of the client returning goa.Endpoint
 	ep, err := clientEndpoint(m.client, c.Method)
 	if err != nil {
-		obs.Err = err.Error()
-		return obs
+		fail(err.Error())
+		return
 	}
 	// payload
 	var payload any
 	if c.HasPayload {
 		pt, ok := payloadType(m.def.ServiceType, c.Method)
 		if !ok {
-			obs.Err = "method takes no payload: " + c.Method
-			return obs
+			fail("method takes no payload: " + c.Method)
+			return
 		}
 		pv, err := FromV(c.Payload, pt, m.def)
 		if err != nil {
-			obs.Err = "payload conversion: " + err.Error()
-			return obs
+			fail("payload conversion: " + err.Error())
+			return
 		}
 		payload = pv.Interface()
 	}
-	res, cerr := ep(context.Background(), payload)
+	res, cerr := ep(context.WithValue(context.Background(), ctxKey, cs), payload)
+	cs.mu.Lock()
+	defer cs.mu.Unlock()
 	if cerr != nil {
-		obs.ClientErr = observeErr(cerr)
+		cs.obs.ClientErr = observeErr(cerr)
 	} else if res != nil {
-		obs.HasResult = true
-		obs.Result = ToV(reflect.ValueOf(res))
+		cs.obs.HasResult = true
+		cs.obs.Result = ToV(reflect.ValueOf(res))
 	}
-	return obs
+}
+
+// burst runs the "call" cases of c.Burst with c.Workers goroutines.
+func (h *H) burst(c *Case) []*Obs {
+	h.mu.Lock()
+	h.cur = nil
+	h.burstSeq++
+	seq := h.burstSeq
+	if h.cases == nil {
+		h.cases = map[string]*caseState{}
+	}
+	states := make([]*caseState, len(c.Burst))
+	for i := range c.Burst {
+		cs := &caseState{c: &c.Burst[i], obs: &Obs{}, token: fmt.Sprintf("b%d-%d", seq, i), inmem: c.InMemory || c.Burst[i].InMemory}
+		states[i] = cs
+		h.cases[cs.token] = cs
+	}
+	h.mu.Unlock()
+	workers := c.Workers
+	if workers < 1 {
+		workers = 1
+	}
+	idx := make(chan int)
+	var wg sync.WaitGroup
+	for w := 0; w < workers; w++ {
+		wg.Add(1)
+		go func() {
+			defer wg.Done()
+			for i := range idx {
+				cs := states[i]
+				func() {
+					defer func() {
+						if r := recover(); r != nil {
+							cs.mu.Lock()
+							cs.obs.Panic = fmt.Sprint(r) + "\n" + string(debug.Stack())
+							cs.mu.Unlock()
+						}
+					}()
+					if cs.c.Op != "" && cs.c.Op != "call" {
+						cs.obs.Err = "burst supports call cases only"
+						return
+					}
+					h.call(cs)
+				}()
+			}
+		}()
+	}
+	for i := range states {
+		idx <- i
+	}
+	close(idx)
+	wg.Wait()
+	out := make([]*Obs, len(states))
+	h.mu.Lock()
+	for i, cs := range states {
+		cs.mu.Lock()
+		out[i] = cs.obs
+		cs.mu.Unlock()
+		delete(h.cases, cs.token)
+	}
+	h.mu.Unlock()
+	return out
 }
 
 func norm(s string) string {
@@ -678,14 +849,14 @@ func payloadType(st reflect.Type, method string) (reflect.Type, bool) {
 // results the case asks for. args are the method arguments after the context;
 // results describes the result types.
 func (h *H) Invoke(svc, method string, ctx context.Context, args []any, results []reflect.Type) []any {
-	h.mu.Lock()
-	cs := h.cur
-	h.mu.Unlock()
+	cs := h.state(ctx)
 	out := make([]any, len(results))
 	if cs == nil {
 		out[len(out)-1] = errors.New("harness: no case in flight")
 		return out
 	}
+	cs.mu.Lock()
+	defer cs.mu.Unlock()
 	cs.obs.StubCalls++
 	if len(args) > 0 && args[0] != nil {
 		rv := reflect.ValueOf(args[0])
@@ -787,9 +958,11 @@ func observeErr(err error) *ErrObs {
 // Auth is called by the glue for every Auther method: it records the
 // credential and scheme it received and accepts or rejects as the case says.
 func (h *H) Auth(svc, fn string, ctx context.Context, args []any, results []reflect.Type) []any {
-	h.mu.Lock()
-	cs := h.cur
-	h.mu.Unlock()
+	cs := h.state(ctx)
+	if cs != nil {
+		cs.mu.Lock()
+		defer cs.mu.Unlock()
+	}
 	out := make([]any, len(results))
 	out[0] = ctx
 	call := AuthCall{Func: fn}
